@@ -754,3 +754,34 @@ def d10_question_in_for(f, ordinal, ret_ty):
     f.text = out
     f.log.rule('D10', f, '%d `E?;` statement(s) in for-loop #%d -> flag + break' % (len(edits), ordinal))
     return f
+
+
+def d8_continue(f):
+    """D8: a statement `if C { continue; }` in a for body -> `if !(C) { rest of the enclosing block }`."""
+    n = 0
+    while True:
+        m = re.search(r'\n([ \t]*)if ([^\n{]+) \{\s*continue;\s*\}\n', f.text)
+        if not m:
+            break
+        start = m.end()
+        mask = code_mask(f.text)
+        d = 0
+        k = start
+        while True:
+            if mask[k]:
+                if f.text[k] == '{':
+                    d += 1
+                elif f.text[k] == '}':
+                    if d == 0:
+                        break
+                    d -= 1
+            k += 1
+        rest = f.text[start:k]
+        tail_ind = re.search(r'[ \t]*$', rest).group(0)
+        rest_body = rest[:len(rest) - len(tail_ind)]
+        f.text = f.text[:m.start()] + '\n' + m.group(1) + 'if !(' + m.group(2) + ') {\n' + rest_body + m.group(1) + '}\n' + tail_ind + f.text[k:]
+        n += 1
+    if n == 0:
+        f._lost('D8 continue pattern')
+    f.log.rule('D8', f, '%d `if C { continue; }` -> `if !(C) { rest }`' % n)
+    return f
